@@ -556,6 +556,21 @@ func (w *World) run(steps int) {
 			h.Pool.Validate(w.now)
 		}
 	}
+	// half of the histories start by registering several addresses (yielding outputs to three
+	// wallets), so that registry refreshes produce blocks with 2 or more pending removals
+	if w.mode != "honest" && r.Chance(1, 2) {
+		if conf := w.confirmed(w.host, w.wallets[0]); len(conf) > 0 && conf[0].value > 10*w.set.Fee+100 {
+			share := (conf[0].value - w.set.Fee) / 4
+			outs := []*JOutput{{w.wallets[1].Addr, true, share}, {w.wallets[2].Addr, true, share}, {w.wallets[3].Addr, true, share}, {w.wallets[0].Addr, false, share}}
+			tx := w.build(&txPlan{ins: []spendable{conf[0]}, outs: outs, ts: w.now})
+			res := w.rec.Admit(tx)
+			w.stats.Count("admit/register-three=" + res)
+			for _, h := range w.helpers {
+				h.Pool.AddTransaction(tx, "x", "y")
+				h.Log.Take()
+			}
+		}
+	}
 	for s := 0; s < steps; s++ {
 		k := r.Intn(100)
 		if w.mode == "swap" && r.Chance(1, 3) {
